@@ -748,6 +748,86 @@ func runStoreOnceNodeIDs(c *engine.Ctx, wrap bool) {
 	}
 }
 
+// runResumption: a TLS client that keeps session tickets. An honest registered node connects with a session
+// cache, reads (so that the tickets the server sends after the handshake are taken in) and leaves; then a peer
+// that holds no certificate and no key offers whatever that cache holds together with a replay of the node's
+// ALPN-carried request. Possession of a certificate key is proved per connection: a ticket is not such a proof.
+// Variants: the same, after the node's record was removed; and with the node's own certificate chain but a
+// signer that is not its key (the client presents the chain and cannot sign).
+func runResumption(c *engine.Ctx, backend string, wrap bool, seq int) {
+	r := c.R
+	s := world.MustServer(world.ServerCfg{Backend: backend, StorageWrap: wrap})
+	defer s.Close()
+	er, err := world.Enroll(s, world.FlowAuthorize, false, nil, nil, nil)
+	if err != nil {
+		r.Broken("resumption: enroll: " + err.Error())
+		return
+	}
+	n := er.Node
+	lw, err := world.NewLW(s, world.LWCfg{})
+	if err != nil {
+		r.Broken(err.Error())
+		return
+	}
+	defer lw.Close()
+	roots, _ := s.Roots()
+	curID, _ := nodeenrollment.KeyIdFromPkix(roots.Current.PublicKeyPkix)
+	nonce := world.RandBytes(nodeenrollment.NonceSize)
+	req := &types.GenerateServerCertificatesRequest{CertificatePublicKeyPkix: n.K.Pkix, Nonce: nonce, NonceSignature: ed25519.Sign(n.K.Priv, nonce)}
+	b := n.Creds.CertificateBundles[0]
+	protos := append(world.AuthProtos(req), world.CertPref(curID))
+	sni := fmt.Sprintf("resume-%d.example", seq)
+	for round, variant := range []string{"no-certificate", "no-certificate-after-record-removed"} {
+		cache := tls.NewLRUClientSessionCache(8)
+		honest := world.ClientSpec{Protos: protos, Chain: [][]byte{b.CertificateDer, b.CaCertificateDer}, Signer: n.K.Priv, SNI: sni, Sessions: cache}
+		rec, cres, ok := runClient(c, lw, honest)
+		if !ok {
+			return
+		}
+		ac := advCase{Kind: "resumption", Storage: backend, Identity: variant}
+		if !rec.Authenticated() || cres.Conn == nil {
+			r.Count("resumption:honest_first_connection_not_authenticated", 1)
+			finishConn(rec, cres)
+			return
+		}
+		// one byte from the server so that the client's Read also takes in the post-handshake messages
+		_, _ = rec.Conn.Write([]byte("k"))
+		_ = cres.Conn.SetReadDeadline(time.Now().Add(20 * time.Second))
+		_, _ = cres.Conn.Read(make([]byte, 1))
+		finishConn(rec, cres)
+		if _, have := cache.Get(sni); have {
+			r.Count("resumption:client_holds_a_session_ticket", 1)
+		} else {
+			r.Count("resumption:server_sent_no_usable_ticket", 1)
+		}
+		if round == 1 {
+			if err := s.RemoveNode(n.K.KeyID); err != nil {
+				r.Broken("resumption: remove node: " + err.Error())
+				return
+			}
+		}
+		keyless := world.ClientSpec{Protos: protos, SNI: sni, Sessions: cache}
+		rec2, cres2, ok := runClient(c, lw, keyless)
+		if !ok {
+			return
+		}
+		r.Eval(engine.J(ac), true)
+		switch {
+		case rec2.Panic != nil:
+			r.Violation("panic-in-accept:"+engine.LibraryFrame(rec2.Stack), fmt.Sprintf("Accept panicked: %v", rec2.Panic), ac)
+		case rec2.Authenticated():
+			resumed := cres2.Conn != nil && cres2.State.DidResume
+			r.Violation("unauthorized-auth:possession=false,resumed-session", fmt.Sprintf("a peer holding no certificate and no private key was returned as an authenticated connection: it offered the session ticket an honest node's client had kept from an earlier connection to this listener, plus a replay of that node's request (TLS session resumed: %v; variant %s)", resumed, variant), ac)
+		default:
+			r.Count("resumption:keyless_peer_with_ticket_rejected", 1)
+		}
+		finishConn(rec2, cres2)
+		if round == 1 {
+			return
+		}
+	}
+}
+
 // ---------------------------------------------------------------------------
 // register / remove / connect sequences
 
@@ -1278,7 +1358,12 @@ func runTLSAdv(c *engine.Ctx) engine.Result {
 		runStoreOnceNodeIDs(c, i%2 == 1)
 	}
 
-	// ---- clients that do not speak the library protocols -------------------
+	// ---- clients that keep TLS session tickets ----------------------------------
+	for i := 0; i < c.Pick(4, 16); i++ {
+		runResumption(c, []string{world.Inmem, world.File, world.StoreOnce}[i%3], i%2 == 1, i)
+	}
+	r.Require("resumption:keyless_peer_with_ticket_rejected", int64(c.Pick(6, 24)))
+
 	{
 		w := newAdvWorld("normal", world.Inmem)
 		for _, protos := range [][]string{nil, {"h2"}, {world.CertPref(w.curID)}, {"h2", world.CertPref("zz")}, {"__AUTH__"}, {"v1-nodee-"}} {
